@@ -11,6 +11,8 @@ R3.6  field names are de-duplicated soundly (test / rename until unused / record
 R3.7  sibling agreement: _resolve_one_of and _resolve_any_of (two copies of one routine) return the same results
 R3.10 every Python type chosen for a string format encodes back to a JSON string (str or a leaf type with a text-producing unstructure hook)
 R3.9  the generated get_mapping() has an entry for every discriminator value of the spec (a conforming document with an aliased value decodes)  [= R14.5]
+R3.12 union variants are tried in declared order (a document of the first variant is not captured by a later, laxer one)          [= R14.9]
+R3.11 wire keys / discriminator values are emitted as literals that evaluate to the spec's own string (non-BMP characters survive)  [= R15.5]
 R3.8  nullability written as a type array is read from the document node at every sibling site (never from IRSchema.type, a string)
 R3.5  recursion over field types: every field of every dataclass gets its nested types registered (no skip)
 """
@@ -146,6 +148,13 @@ def run(repo: Repo, rep: Report, tier: str) -> None:
     from rules._reuse import reuse as _reuse39
 
     _reuse39(repo, rep, "c14", {"R14.5": "R3.9"})
+    # R3.11: wire keys and discriminator values are written into the generated model modules as Python literals that evaluate to the
+    # spec's own string (json.dumps with ensure_ascii=False: an astral-plane character is not turned into two lone surrogates)   [= R15.5]
+    # R3.12: a conforming document of an un-discriminated union is decoded as the first declared variant that accepts it   [= R14.9]
+    from rules.c14 import rule_declared_order as _rdo
+
+    _rdo(repo, rep, "R3.12")
+    _reuse39(repo, rep, "c15", {"R15.5": "R3.11"}, only=lambda subj: "python_construct_renderer" in subj)
     # ---------------------------------------------------------------- R3.8 type-array nullability is read from the document node
     # `type: [string, "null"]` lives in the raw node; IRSchema.type is a plain string (ir.py), so a test `isinstance(<ir>.type, list)` can never
     # hold and the property silently stops being nullable (None then fails to structure)
